@@ -34,6 +34,7 @@ type Obligation struct {
 }
 
 type FnCtx struct {
+	frozenCells      []frozenCell // captured variables assigned exactly once: they survive `modifies everything`
 	eng              *Engine
 	fn               *ssa.Function
 	contract         *Contract
@@ -472,6 +473,13 @@ func (fr *Frame) opaqueInput(key ssa.Value, t types.Type, name string) Val {
 				c.smt.assume("(> "+ref+" 0)", "captured variable cell")
 				c.smt.assume(sel(c.heapGet(fr.entry, "alloc", allocSort), ref), "captured variable cell is allocated")
 				v = Val{T: t, Addr: &Addr{Kind: akCell, Ref: ref, RootT: p.Elem()}}
+				if freeVarWriteOnce(key.(*ssa.FreeVar)) {
+					// the captured variable is assigned once, before the closure was created: it keeps its value
+					hn, hs := c.cellHeap(p.Elem())
+					cur := sel(c.heapGet(fr.entry, hn, hs), ref)
+					val := c.smt.define("frozen", c.sortOf(p.Elem()), cur)
+					c.frozenCells = append(c.frozenCells, frozenCell{hn, hs, ref, val})
+				}
 			}
 		}
 	}
@@ -724,7 +732,7 @@ func (fr *Frame) enterLoop(lp *Loop, ins []edgeIn) (*State, string) {
 			continue
 		}
 		switch {
-		case g == "sent" || g == "received":
+		case g == "sent" || g == "received" || g == "calls":
 			c.ghostSorts[g] = "(Array Int Int)"
 		case eff.sorts[g] != "":
 			c.ghostSorts[g] = eff.sorts[g]
